@@ -78,6 +78,13 @@ def check_pair(case):
     ok, G = out.call("ggivens", L.utils.ggivens, x1.copy(), x2.copy())
     if not ok:
         return out
+    # rotations are generated in sequences and applied later: a second rotation (for the swapped, rescaled pair) is
+    # generated BEFORE the first one is examined; the first must still be the rotation of its own pair
+    if isinstance(G, np.ndarray):
+        snap = G.tobytes()
+        ok2, G2 = out.call("ggivens(second call)", L.utils.ggivens, 0.5 * x2 + 0.25, x1 - 0.125)
+        out.true("ggivens:a rotation is not changed by generating another one", G.tobytes() == snap,
+                 "the array returned by the first call changed during the second call (shared workspace)")
     G = np.asarray(G, dtype=float)
     if not out.true("ggivens:shape", G.shape == (8, 8), f"{G.shape}"):
         return out
